@@ -82,18 +82,19 @@ pub(crate) fn run<'tcx>(
         use_finalizers_not_cleaners,
     } = conf.kotlin_config;
 
-    let domain = domain.expect("Failed to parse Kotlin config. Missing required field `domain`.");
+    let files = FileMap::default();
+    let errors = ErrorStore::default();
 
-    let lib_name = conf
-        .shared_config
-        .lib_name
-        .expect("Failed to parse Kotlin config. Missing required field `lib_name`.");
+    let (Some(domain), Some(lib_name)) = (domain, conf.shared_config.lib_name) else {
+        errors.push_error(
+            "Failed to parse Kotlin config. Missing required field `domain` or `lib_name`."
+                .to_string(),
+        );
+        return (files, errors);
+    };
 
     let use_finalizers_not_cleaners = use_finalizers_not_cleaners.unwrap_or(false);
     let formatter = KotlinFormatter::new(tcx, None, docs_url_gen);
-
-    let files = FileMap::default();
-    let errors = ErrorStore::default();
     let mut callback_params = Vec::new();
 
     let mut ty_gen_cx = TyGenContext {
